@@ -133,13 +133,22 @@ def rule_order_wrapper(ctx: Ctx) -> None:
                      func="OneQubitGateWrapper.unwrap", construct=f"unwrap: returns {short(r.value, 60)}")
     base = repo.anchor(OPS, "OperationBase.unwrap")
     # 2. matrix accumulations in list order
-    for rel, q, var in ((OPS, "local_clifford_to_matrix_map", "result"), (NM, "LocalCliffordError.apply", "unitary")):
+    for rel, q in ((OPS, "local_clifford_to_matrix_map"), (NM, "LocalCliffordError.apply")):
         mm_ = repo.module(rel)
         f = repo.anchor(rel, q)
         ctx.touch(mm_, f)
-        acc = order.loop_accumulations(f, var)
+        # the accumulated product: a name this function returns or hands to apply_unitary
+        cands = [r.value.id for r in ast.walk(f) if isinstance(r, ast.Return) and isinstance(r.value, ast.Name)]
+        cands += [c.args[0].id for c in calls_in(f) if call_attr(c) == "apply_unitary" and c.args and isinstance(c.args[0], ast.Name)]
+        acc = []
+        var = None
+        for cv in dict.fromkeys(cands):
+            a_ = order.loop_accumulations(f, cv)
+            if a_:
+                acc += a_
+                var = cv
         if not acc:
-            raise AnalysisError(f"{q}: accumulation of `{var}` not found")
+            raise AnalysisError(f"{q}: accumulation of the matrix product not found")
         for loop, st, d, s in acc:
             if d * s == 1:
                 ctx.ok("order.wrapper", mm_, st, what=f"{q}: product in list order")
@@ -160,8 +169,24 @@ def rule_order_wrapper(ctx: Ctx) -> None:
         if len(prods) != 1:
             raise AnalysisError(f"{q}: matrix product of the two halves not found")
         l, r = mats[norm(prods[0].left)], mats[norm(prods[0].right)]
-        # the composition halves are (a-part, b-part) in this order everywhere
-        halves_ok = (l.endswith("1") or l.endswith("[0]")) and (r.endswith("2") or r.endswith("[1]"))
+        # the composition halves are (a-part, b-part) in this order everywhere: `A, B = local_clifford_composition()`, x iterates A, y iterates B
+        first, second = set(), set()
+        for n in ast.walk(f):
+            if isinstance(n, ast.Assign) and isinstance(n.value, ast.Call) and call_name(n.value) == "local_clifford_composition" \
+                    and isinstance(n.targets[0], ast.Tuple) and len(n.targets[0].elts) == 2:
+                first.add(norm(n.targets[0].elts[0]))
+                second.add(norm(n.targets[0].elts[1]))
+        iters = {norm(lp.target): norm(lp.iter) for lp in ast.walk(f) if isinstance(lp, ast.For)}
+
+        def _half(t: str) -> int:
+            if t.endswith("[0]") or iters.get(t) in first:
+                return 0
+            if t.endswith("[1]") or iters.get(t) in second:
+                return 1
+            return -1
+        if _half(l) < 0 or _half(r) < 0:
+            raise AnalysisError(f"{q}: the two composition halves `{l}` / `{r}` are not recognised")
+        halves_ok = _half(l) == 0 and _half(r) == 1
         cat = [n for n in ast.walk(f) if isinstance(n, ast.BinOp) and isinstance(n.op, ast.Add) and {norm(n.left), norm(n.right)} == {l, r}]
         if cat:
             halves_ok = halves_ok and norm(cat[0].left) == l
